@@ -89,7 +89,7 @@ PROPS["C04"] = dict(
     driver="c04", builds=["rel", "dbg"], level="exploration",
     rule="E-input: (a) every vector of length 0..=L over the full alphabet 0..2^w for small (w, L); (b) every vector of length <= 4 (<= 2 for the widest) over the sparse alphabet {0, 1, 2^(k-1)-1, 2^(k-1), 2^k-1} for k up to 16, and the same five-letter alphabet at widths 17..26 with vectors of <= 3 (<= 1 at the widest) values; "
          "each built from Vec<u64>, from every narrower item type that can hold the values (u8/u16/u32/usize) and by serialize + load, which must all answer identically. Queries: len, width, get, iter, into_iter, "
-         "inverse_select at every index <= len+1 and A(len); for every value of the alphabet (or the present values and their neighbours) plus max+1, 2^w, 2^w+1, 2^63, u64::MAX: contains, value_iter (collected, and reached by nth(k) for k around the number of occurrences, after which the iterator must stay exhausted), rank / predecessor / successor at every "
+         "inverse_select at every index <= len+1 and A(len); for every value of the alphabet (or the present values and their neighbours) plus max+1, 2^w, 2^w+1, 2^63, u64::MAX: contains, iter() / into_iter() entered by nth(k) for k in {0, n-1, n, n+1} (item, remaining length, the rest), value_iter (collected, and reached by nth(k) for k around the number of occurrences, after which the iterator must stay exhausted), rank / predecessor / successor at every "
          "index, select / select_iter at every rank <= count+1 and A(.); core: map_down, map_down_with, map_down_with_two_positions, map_up_with against the stable sort by reversed bit representation. "
          "Non-trivial = at least two distinct values; distinct by hashed vector.",
     bounds={"quick": "(w,L) in (1,8) (2,5) (3,4) (4,3); k <= 8 at depth 4, k in {12,16} at depth 2", "thorough": "(w,L) in (1,13) (2,8) (3,5) (4,5) (5,3); k <= 16 at depth 4"},
@@ -107,7 +107,7 @@ PROPS["C06"] = dict(
     rule="E-input: a catalogue of values of every Serialize type (u64, usize, pairs, vectors of them, byte vectors of every length 0..17, ASCII and multi-byte strings, Option and Option<Option<>> of several types incl. Option<SparseVector|RLVector|WaveletMatrix>, "
          "RawVector, IntVector at many widths, BitVector with each of the 8 support subsets, SparseVector (sets and multisets), RLVector with 1/8/9/many blocks, WMCore, WaveletMatrix, RankSupport, SelectSupport) plus every "
          "BitVector / SparseVector / RLVector of <= N bits. For each x: bytes written == 8*size_in_elements == size_in_bytes; load consumes exactly those bytes, equals x, re-serializes identically and answers the query sets of C01-C04; "
-         "also through 1/3/7/8/9-byte short-read readers and 1/3/7-byte short-write sinks; size_by_params for Raw/IntVector over boundary (capacity, width) sets; every wavelet matrix and core of small scopes (levels whose supports differ in size); values of many megabytes around the piece sizes a loader might use (2^17+3 and 2^20+3 elements, 2^16+1 and 2^20+1 pairs, 2^20+5 and 2^23+1 bytes, 2^21 37-bit items, a bitvector of 2^26+70 bits with all supports); plain bitvectors obtained by conversion from every multiset sparse vector over universes <= 3 with <= 2u+1 values (duplicates, overfull), with and without supports. Every ordered pair (thorough: every triple over 24 values) "
+         "the catalogue includes a 64-level WMCore and run-length vectors whose final block holds 61..65 code units; also through 1/3/7/8/9-byte short-read readers and 1/3/7-byte short-write sinks; size_by_params for Raw/IntVector over boundary (capacity, width) sets; every wavelet matrix and core of small scopes (levels whose supports differ in size); values of many megabytes around the piece sizes a loader might use (2^17+3 and 2^20+3 elements, 2^16+1 and 2^20+1 pairs, 2^20+5 and 2^23+1 bytes, 2^21 37-bit items, a bitvector of 2^26+70 bits with all supports); plain bitvectors obtained by conversion from every multiset sparse vector over universes <= 3 with <= 2u+1 values (duplicates, overfull), with and without supports. Every ordered pair (thorough: every triple over 24 values) "
          "written back to back loads in sequence with the reader ending exactly at the end. Non-trivial = more than one element; distinct by hashed descriptor / descriptor tuple.",
     bounds={"quick": "158-value catalogue, N=12, 24 964 pairs", "thorough": "extended catalogue (all widths, all byte lengths, multi-superblock vectors), N=18, all pairs, 46 656 triples"},
     assumptions=[HOOK_ASSUMPTION, MODEL_ASSUMPTION],
@@ -261,7 +261,7 @@ PROPS["C11"] = dict(
     driver="c11", builds=["rel", "dbg"], level="exploration",
     rule="E-input: every bit sequence of length <= N plus representatives (all-zero and all-one vectors at word boundaries, multi-word, multi-block and long-superblock vectors) is built as each of BitVector / SparseVector / RLVector and sent through "
          "EVERY conversion chain of 1..3 conversions: 42 chains by From (consecutive types differ) and 117 chains by copy_bit_vec (any type to any type incl. itself). The result must have the reference length and set positions, be == the structure "
-         "the target type's own builder produces from the same bits, and serialize to identical bytes. Builder decompositions: every run list of <= 3 runs of length <= R (gaps 0/1/2) x EVERY composition of each run into adjacent try_set pieces "
+         "the target type's own builder produces from the same bits, and serialize to identical bytes. Iterator routes: FromIterator<bool> for BitVector and SparseVector::try_from_iter (the empty sequence and sequences ending with a set bit) must give the canonical structure. Builder decompositions: every run list of <= 3 runs of length <= R (gaps 0/1/2) x EVERY composition of each run into adjacent try_set pieces "
          "(down to bit at a time) x {no set_len, set_len(current length) before every run, set_len(next start) before every run, set_len(current length) before every PIECE, two refused try_set calls (an overflowing run behind a gap, a run before the current length) before every piece} x tail {0, 2}: the RLVector must be the canonical one. "
          "Huge universes (incl. k = 0..34 isolated bits, then a bit beyond 2^63: the widest gap code at every fill level of a block): SparseVector <-> RLVector chains (From and copy_bit_vec) over lengths up to usize::MAX with runs at 2^60-scale positions and runs ending exactly at usize::MAX. Non-trivial = has set and unset bits / any decomposition.",
     bounds={"quick": "N=12, R=5", "thorough": "N=18, R=6"},
